@@ -42,6 +42,18 @@
 (*                             frame carries the leftover in front of its  *)
 (*                             body (the universe holds a frame whose body *)
 (*                             is refused after it wrote something)        *)
+(*   Receiver_KeepsBody        a decode that follows a REFUSED decode into  *)
+(*                             the same receiver keeps the body that the    *)
+(*                             receiver held (must violate                  *)
+(*                             ReceiverIndependent)                         *)
+(* Receivers (Receivers = TRUE): every Decode(T) goes into ONE receiver    *)
+(* object per type, kept for the whole history (rcv[T]); DecodeRefused(T)  *)
+(* is a decode the interpreter rejects, after which the caller drops the   *)
+(* buffer (what the code leaves in buffer and receiver on an error is not  *)
+(* specified, so the model does not look at either).  ReceiverIndependent: *)
+(* what a successful decode yields is a function of the bytes alone - not  *)
+(* of what the receiver held, nor of a refusal before it (C15, and C01 /   *)
+(* C07 / C12 for reused receivers).                                        *)
 (* Registry x frames (RegistryOps = TRUE): RemoveSvc / RestoreSvc of the   *)
 (* checksum services; a frame encoded while its service is absent keeps    *)
 (* the caller's checksum (what the code does; C05 assumes the start-up     *)
@@ -49,15 +61,21 @@
 (***************************************************************************)
 EXTENDS Codec, SequencesExt
 
-CONSTANTS MaxOps, Deviations, JunkBytes, RegistryOps   \* RegistryOps: include Remove/Restore of checksum services
+CONSTANTS MaxOps, Deviations, JunkBytes, RegistryOps,  \* RegistryOps: include Remove/Restore of checksum services
+          Receivers,                                  \* decodes go into one kept receiver per type; refused decodes are explored
+          OpSet                                       \* the public operations of this configuration (a subset of AllOps)
 
 Msgs == ndJsonDeserialize(IOEnv.VERIF_VALUES)      \* sequence of [t, v]
 MsgIds == 1..Len(Msgs)
 Dev(d) == d \in Deviations
 
 VARIABLES mem, rd, obj, reg, frames, q, lead, nops, hist, last,
-          scratch     \* what a pooled staging buffer of the frame encoders holds between calls (always empty in the faithful model)
-vars == <<mem, rd, obj, reg, frames, q, lead, nops, hist, last, scratch>>
+          scratch,    \* what a pooled staging buffer of the frame encoders holds between calls (always empty in the faithful model)
+          rcv,        \* rcv[T]: what the kept receiver of type T holds (the last message decoded into it)
+          rfl         \* rfl[T]: "fresh" | "used" | "refused" (the last decode into it was refused)
+vars == <<mem, rd, obj, reg, frames, q, lead, nops, hist, last, scratch, rcv, rfl>>
+AllOps == {"encode", "decode", "refused", "next", "reset", "write", "stale", "registry"}
+UTypes == {Msgs[m].t : m \in MsgIds}
 
 Unread == Drop(mem, rd)
 
@@ -70,6 +88,8 @@ Init ==
   /\ nops = 0 /\ hist = <<>>
   /\ last = [op |-> "init"]
   /\ scratch = <<>>
+  /\ rcv = [T \in UTypes |-> NilV]
+  /\ rfl = [T \in UTypes |-> "fresh"]
 
 ---------------------------------------------------------------------------
 (* The six steps of a length-computing frame encoder, as transformers of a *)
@@ -119,7 +139,7 @@ QLen == LET RECURSIVE S(_) S(i) == IF i = 0 THEN 0 ELSE Len(q[i].bytes) + S(i - 
 Log(rec) == /\ hist' = Append(hist, rec) /\ nops' = nops + 1 /\ last' = rec
 
 Encode(m) ==
-  /\ nops < MaxOps
+  /\ nops < MaxOps /\ "encode" \in OpSet
   /\ LET T == Msgs[m].t
          s == EncodeOf(T, obj[m], mem, rd, reg, IF Dev("Scratch_KeptOnError") THEN scratch ELSE <<>>)
          app == Drop(s.mem, Len(mem))
@@ -132,65 +152,87 @@ Encode(m) ==
            THEN q' = Append(q, [t |-> T, v |-> obj[m], vp |-> s.v, bytes |-> app]) /\ UNCHANGED lead
            ELSE UNCHANGED <<q, lead>>
         /\ Log([op |-> "encode", m |-> m, t |-> T, res |-> IF s.ok THEN "ok" ELSE "err", post |-> Drop(s.mem, s.rd), vpost |-> s.v])
-  /\ UNCHANGED reg
+  /\ UNCHANGED <<reg, rcv, rfl>>
+
+(* the body (or extension) part of a message of type T, if it has one *)
+BodyNameOf(T) == LET fs == FieldsOf(T) IN
+  IF \E i \in 1..Len(fs) : fs[i].kind = "body" THEN (fs[CHOOSE i \in 1..Len(fs) : fs[i].kind = "body"]).name ELSE ""
+(* deviation Receiver_KeepsBody: the decoder re-uses the body object the receiver already holds *)
+Leak(T, old, new) ==
+  IF BodyNameOf(T) # "" /\ old # NilV THEN [new EXCEPT ![BodyNameOf(T)] = old[BodyNameOf(T)]] ELSE new
 
 Decode(T) ==
-  /\ nops < MaxOps
-  /\ LET D == Dec(T, Unread) IN
-     /\ D.ok           \* only accepted inputs are followed (what the code leaves behind on an error is not specified)
+  /\ nops < MaxOps /\ "decode" \in OpSet
+  /\ LET D == Dec(T, Unread)
+         got == IF Dev("Receiver_KeepsBody") /\ Receivers /\ rfl[T] = "refused" THEN Leak(T, rcv[T], D.val) ELSE D.val
+     IN
+     /\ D.ok           \* accepted inputs (refused ones: DecodeRefused)
      /\ rd' = rd + D.used
      /\ IF lead = 0 /\ Len(q) > 0 /\ D.used = Len(q[1].bytes) THEN q' = Tail(q) /\ UNCHANGED lead
         ELSE q' = <<>> /\ lead' = Len(Unread) - D.used
-     /\ Log([op |-> "decode", t |-> T, res |-> "ok", post |-> Drop(mem, rd + D.used), vpost |-> D.val, used |-> D.used])
+     /\ IF Receivers THEN rcv' = [rcv EXCEPT ![T] = got] /\ rfl' = [rfl EXCEPT ![T] = "used"] ELSE UNCHANGED <<rcv, rfl>>
+     /\ Log([op |-> "decode", t |-> T, res |-> "ok", post |-> Drop(mem, rd + D.used), vpost |-> got, used |-> D.used,
+             bytesonly |-> D.val, kept |-> Receivers])
   /\ UNCHANGED <<mem, obj, reg, frames, scratch>>
 
+(* a decode the interpreter refuses (wrong type for these bytes, a frame cut by an earlier Next, raw bytes).  What the *)
+(* code leaves in the buffer and in the receiver is not specified: the caller drops the buffer, the receiver stays in *)
+(* use - and the next successful decode into it must not show any of that.                                            *)
+DecodeRefused(T) ==
+  /\ nops < MaxOps /\ Receivers /\ "refused" \in OpSet
+  /\ Len(Unread) > 0 /\ ~Dec(T, Unread).ok
+  /\ mem' = <<>> /\ rd' = 0 /\ frames' = <<>> /\ q' = <<>> /\ lead' = 0
+  /\ rfl' = [rfl EXCEPT ![T] = "refused"]
+  /\ Log([op |-> "refused", t |-> T, res |-> "err", post |-> <<>>])
+  /\ UNCHANGED <<obj, reg, scratch, rcv>>
+
 NextK(k) ==
-  /\ nops < MaxOps /\ k > 0 /\ k <= Len(Unread)
+  /\ nops < MaxOps /\ "next" \in OpSet /\ k > 0 /\ k <= Len(Unread)
   /\ rd' = rd + k
   /\ IF k <= lead THEN lead' = lead - k /\ UNCHANGED q ELSE q' = <<>> /\ lead' = Len(Unread) - k
   /\ Log([op |-> "next", k |-> k, post |-> Drop(mem, rd + k)])
-  /\ UNCHANGED <<mem, obj, reg, frames, scratch>>
+  /\ UNCHANGED <<mem, obj, reg, frames, scratch, rcv, rfl>>
 
 Reset ==
-  /\ nops < MaxOps /\ mem # <<>>
+  /\ nops < MaxOps /\ "reset" \in OpSet /\ mem # <<>>
   /\ mem' = <<>> /\ rd' = 0 /\ frames' = <<>> /\ q' = <<>> /\ lead' = 0
   /\ Log([op |-> "reset", post |-> <<>>])
-  /\ UNCHANGED <<obj, reg, scratch>>
+  /\ UNCHANGED <<obj, reg, scratch, rcv, rfl>>
 
 WriteRaw ==
-  /\ nops < MaxOps
+  /\ nops < MaxOps /\ "write" \in OpSet
   /\ mem' = mem \o JunkBytes
   /\ IF Len(q) = 0 THEN lead' = Len(Unread) + Len(JunkBytes) ELSE UNCHANGED lead
   /\ Log([op |-> "write", bytes |-> JunkBytes, post |-> Unread \o JunkBytes])
-  /\ UNCHANGED <<rd, obj, reg, frames, q, scratch>>
+  /\ UNCHANGED <<rd, obj, reg, frames, q, scratch, rcv, rfl>>
 
 (* the caller leaves junk in the self-computed fields *)
 SetStale(m) ==
-  /\ nops < MaxOps /\ Msgs[m].t \in FrameTypes
+  /\ nops < MaxOps /\ "stale" \in OpSet /\ Msgs[m].t \in FrameTypes
   /\ LET T == Msgs[m].t
          v1 == [obj[m] EXCEPT ![LenName(T)] = <<255, 255, 255, 255>>]
          v2 == IF HasKind(T, "checksum") THEN [v1 EXCEPT ![CsumName(T)] = <<222, 173, 190, 239>>] ELSE v1
      IN /\ obj[m] # v2
         /\ obj' = [obj EXCEPT ![m] = v2]
         /\ Log([op |-> "stale", m |-> m, t |-> T, vpost |-> v2])
-  /\ UNCHANGED <<mem, rd, reg, frames, q, lead, scratch>>
+  /\ UNCHANGED <<mem, rd, reg, frames, q, lead, scratch, rcv, rfl>>
 
 (* registry x frames: the application removes / re-registers a checksum service *)
 UsedAlgs == {ChecksumAlg(Msgs[m].t) : m \in {m \in MsgIds : Msgs[m].t \in CsumTypes}}
 RemoveSvc(a) ==
-  /\ nops < MaxOps /\ RegistryOps /\ a \in reg
+  /\ nops < MaxOps /\ RegistryOps /\ "registry" \in OpSet /\ a \in reg
   /\ reg' = reg \ {a}
   /\ Log([op |-> "regremove", alg |-> a])
-  /\ UNCHANGED <<mem, rd, obj, frames, q, lead, scratch>>
+  /\ UNCHANGED <<mem, rd, obj, frames, q, lead, scratch, rcv, rfl>>
 RestoreSvc(a) ==
-  /\ nops < MaxOps /\ RegistryOps /\ a \notin reg
+  /\ nops < MaxOps /\ RegistryOps /\ "registry" \in OpSet /\ a \notin reg
   /\ reg' = reg \cup {a}
   /\ Log([op |-> "regrestore", alg |-> a])
-  /\ UNCHANGED <<mem, rd, obj, frames, q, lead, scratch>>
+  /\ UNCHANGED <<mem, rd, obj, frames, q, lead, scratch, rcv, rfl>>
 
 Next == \/ \E m \in MsgIds : Encode(m) \/ SetStale(m)
         \/ \E a \in UsedAlgs : RemoveSvc(a) \/ RestoreSvc(a)
-        \/ \E T \in {Msgs[m].t : m \in MsgIds} : Decode(T)
+        \/ \E T \in UTypes : Decode(T) \/ DecodeRefused(T)
         \/ \E k \in {1, 5} \cup (IF Len(q) > 0 /\ lead = 0 THEN {Len(q[1].bytes)} ELSE {}) : NextK(k)
         \/ Reset \/ WriteRaw
 Spec == Init /\ [][Next]_vars
@@ -225,8 +267,12 @@ ChannelShape ==
   IN IsPrefixOf(Cat(Len(q)), Drop(Unread, lead))
 
 AppendOnly ==
-  [][ \/ last'.op = "reset"
+  [][ \/ last'.op \in {"reset", "refused"}     \* (a refused decode: the caller drops the buffer)
       \/ (IsPrefixOf(mem, mem') /\ rd' >= rd /\ (last'.op \in {"encode", "write", "stale"} => rd' = rd)) ]_vars
+
+(* C15 at the level of the design (and C01/C07/C12 for kept receivers): what a successful decode yields is a function *)
+(* of the bytes it read, whatever the receiver held and whatever was refused before                                  *)
+ReceiverIndependent == last.op = "decode" => last.vpost = last.bytesonly
 
 (* refinement of the FIFO channel (Channel.tla) *)
 ChanView == [i \in 1..Len(q) |-> q[i].vp]
@@ -235,5 +281,5 @@ Ch == INSTANCE Channel WITH chan <- ChanView, got <- GotView
 ChannelRefinement == Ch!CSpec
 
 Export == nops = MaxOps => PrintT(<<"BEHAVIOUR", ToJson(hist)>>)
-ViewNoHist == <<mem, rd, obj, reg, frames, q, lead, nops, last, scratch>>
+ViewNoHist == <<mem, rd, obj, reg, frames, q, lead, nops, last, scratch, rcv, rfl>>
 =============================================================================
